@@ -59,7 +59,8 @@ PROPS = {
                             "semantics is what the model and the correspondence define"],
     },
     "C04": {
-        "engines": [{"name": "engrep", "quick": 2500, "thorough": 60000, "shards": 8}, _eng("cache", 10000, 300000)],
+        "engines": [{"name": "engrep", "quick": 2500, "thorough": 60000, "shards": 8}, _eng("cache", 10000, 300000),
+                    {"name": "iso", "quick": 8000, "thorough": 300000, "shards": 8}],
         "nontrivial": _eng_nontrivial,
         "rule": _ENG_RULE + "engrep: each case is executed 13 times on fresh WAFs (Go randomises map iteration per range), "
                 "all repetitions must give the same canonical outcome and equal the model's.",
@@ -67,6 +68,19 @@ PROPS = {
         "open_statements": ["C04_state_perm needs commutation hypotheses on the observed projection; they are discharged for "
                             "concrete action classes only by the correspondence (generator emits order-free actions on "
                             "multi-valued targets)"],
+    },
+    "C05": {
+        "engines": [{"name": "iso", "quick": 20000, "thorough": 600000, "shards": 8}],
+        "nontrivial": _eng_nontrivial,
+        "rule": _ENG_RULE + "iso: a predecessor transaction (own request with extra argument names, own call sequence, "
+                "possibly without ProcessLogging; it may match, be interrupted in any phase, switch the engine, remove rules/"
+                "targets by ctl, leave skip/skipAfter/allow pending) runs twice on the WAF and is closed; then the probe runs "
+                "on the same WAF (recycled transaction object) and its full outcome must equal the model's outcome on a fresh "
+                "transaction. SecArgumentsLimit 8 so that argument accounting carried over would show.",
+        "modelled": _ENG_MODELLED + " Recycling: newTransaction's assignments and Close's variables.reset() over the modelled fields "
+                    "(lean/Coraza/Model/Recycle.lean). Body buffers/readers and audit overrides are not in this model (C10/C19/C20).",
+        "assumptions": _ENG_ASSUME + ["sync.Pool returns either a previously closed object or a new one"],
+        "open_statements": ["C05_readers_dead (a reader of a closed transaction yields nothing) is not yet stated; double Close is out of scope of the statement"],
     },
     "C09": {
         "engines": [_eng("acct", 25000, 800000), _eng("", 10000, 300000)],
